@@ -157,18 +157,20 @@ def h_reverse(ctx, pname, D, P, zero_first=False):
 
 def units(tier, seed):
     out = []
-    D, P = (4, 2) if tier == 'quick' else (8, 2)
-    for op in O.catalogue():
-        if 'c14only' in op.tags:
-            continue
-        out.append(Unit('C12/%s/D%d,P%d' % (op.name, D, P), 'symx.props.c12', 'h_op',
-                        {'opname': op.name, 'D': D, 'P': P}, {'property': PROP, 'path_budget': 300}))
+    for (D, P) in ([(4, 2)] if tier == 'quick' else [(8, 2), (11, 1), (5, 3)]):
+        for op in O.catalogue():
+            if 'c14only' in op.tags:
+                continue
+            out.append(Unit('C12/%s/D%d,P%d' % (op.name, D, P), 'symx.props.c12', 'h_op',
+                            {'opname': op.name, 'D': D, 'P': P}, {'property': PROP, 'path_budget': 300}))
     # long polynomials (fast paths that switch on for large D)
     for opn in ['utpm mul utpm', 'utpm div utpm', 'pow3', 'square', 'exp', 'sin', 'log', 'sqrt', 'dot(vec,vec)']:
         if opn in O.by_name():
             out.append(Unit('C12/%s/D17,P1' % opn, 'symx.props.c12', 'h_op', {'opname': opn, 'D': 17, 'P': 1}, {'property': PROP, 'path_budget': 300}))
     for pn in ['x*x', 'x/(1+x*x)', 'exp', 'prod', 'dot(mat,mat)', 'buffer', 'inv', 'sin(x)*x', 'x**3', 'sqrt', 'outer']:
         out.append(Unit('C12/reverse/%s/D3,P1' % pn, 'symx.props.c12', 'h_reverse', {'pname': pn, 'D': 3, 'P': 1}, {'property': PROP, 'float_tol': 1e-6}))
+        if tier != 'quick':
+            out.append(Unit('C12/reverse/%s/D4,P2' % pn, 'symx.props.c12', 'h_reverse', {'pname': pn, 'D': 4, 'P': 2}, {'property': PROP, 'float_tol': 1e-6}))
     out.append(Unit('C12/reverse/prod with a zero factor/D3,P1', 'symx.props.c12', 'h_reverse', {'pname': 'prod', 'D': 3, 'P': 1, 'zero_first': True},
                     {'property': PROP, 'float_tol': 1e-6}))
     out.append(Unit('C12/eigh, small gap and huge second-order coefficient', 'symx.props.c12', 'h_eigh_scales', {},
